@@ -27,6 +27,10 @@ META = {
         'interpreter must equal a trace accepted by the automaton written from the statement. All schedules up to the '
         'stated bound are enumerated; seeded random programs/schedules of the same family are added on top.'),
     'level_note': (
+        'Session histories: 6 of every 7 runs under test (thorough: 6 of every 21) are preceded, in the same session, by a run of a prelude that ends '
+        'inside the ON ERROR handler (END / second error / Ctrl+Break there), inside an event handler (END / Ctrl+Break with '
+        'an occurrence remembered), or by STOP with the trap stopped and an occurrence remembered; the run under test is then '
+        'started by RUN, CLEAR + RUN, or NEW + entering the program + RUN and must behave as in a fresh session. '
         'Trusted: the harness stepper (delivery before the n-th statement boundary, calibrated at run time), the '
         'virtual clock (a TIMER occurrence = the clock passing one full period at a boundary). Choice points where '
         'the statement pins nothing - every resolution accepted: order of handlers that fire at the same boundary; '
@@ -58,6 +62,9 @@ META = {
                                  'occurrences_after_program_end', 'simultaneous_firings',
                                  'on_event_gosub_reexecuted_while_stopped_pending_or_in_handler',
                                  'entries_after_handler_left_by_return_line', 'plain_gosub_levels_inside_handler',
+                                 'runs_preceded_by_errh_end', 'runs_preceded_by_errh_error', 'runs_preceded_by_errh_break',
+                                 'runs_preceded_by_handler_end', 'runs_preceded_by_handler_break', 'runs_preceded_by_stop_pending',
+                                 'runs_after_clear',
                                  'handlers_abandoned_by_resume_line']},
     'timeout': {'quick': 900, 'thorough': 10800},
 }
@@ -319,6 +326,65 @@ def to_basic(prog):
 
 
 # ---------------------------------------------------------------------------------------
+# preludes: a run that ends in an unusual state, executed in the same session BEFORE the run under test. The run
+# under test starts with RUN (optionally after CLEAR, or NEW + entering the program again), so its trap behaviour
+# must be that of a fresh session.
+
+PRELUDE_BASE = 50000
+PRELUDES = ['none', 'errh-end', 'errh-error', 'errh-break', 'handler-end', 'handler-break', 'stop-pending']
+
+
+def _ev_text(t):
+    if t['kind'] == 'key':
+        return b'KEY(%d)' % t['arg']
+    if t['kind'] == 'timer':
+        return b'TIMER'
+    if t['kind'] == 'pen':
+        return b'PEN'
+    return b'STRIG(%d)' % t['arg']
+
+
+def _on_gosub(t, line):
+    if t['kind'] == 'timer':
+        return b'ON TIMER(%d) GOSUB %d' % (t['arg'], line)
+    return b'ON %s GOSUB %d' % (_ev_text(t), line)
+
+
+def prelude_lines(prog):
+    """Program text of the six preludes (lines 51000..56999), written for the first trap of the program."""
+    t = prog['traps'][0]
+    ev = _ev_text(t)
+    out = []
+    for k in range(1, 7):
+        L = PRELUDE_BASE + 1000 * k
+        if k in (1, 2, 3):
+            body = [b'ON ERROR GOTO %d' % (L + 100), _on_gosub(t, L + 200), ev + b' ON', b'PRINT "p";', b'ERROR 77', b'END']
+            errh = [b'PRINT "e";'] + {1: [b'END'], 2: [b'ERROR 78'], 3: [b'PRINT "w";', b'END']}[k]
+            hand = [b'RETURN']
+        elif k in (4, 5):
+            body = [_on_gosub(t, L + 200), ev + b' ON', b'PRINT "p";', b'PRINT "q";', b'END']
+            errh = []
+            hand = [b'PRINT "h";', b'END'] if k == 4 else [b'PRINT "h";', b'PRINT "i";', b'RETURN']
+        else:
+            body = [_on_gosub(t, L + 200), ev + b' ON', ev + b' STOP', b'PRINT "p";', b'STOP', b'END']
+            errh = []
+            hand = [b'RETURN']
+        for i, tx in enumerate(body):
+            out.append(b'%d %s' % (L + 10 * i, tx))
+        for i, tx in enumerate(errh):
+            out.append(b'%d %s' % (L + 100 + 10 * i, tx))
+        for i, tx in enumerate(hand):
+            out.append(b'%d %s' % (L + 200 + 10 * i, tx))
+    return out
+
+
+# what arrives before which boundary of the prelude run (boundary 1 = the RUN <line> statement): 'occ' = an occurrence
+# of the first trap's event, 'break' = Ctrl+Break
+PRELUDE_EVENTS = {1: {7: ['occ']}, 2: {7: ['occ']}, 3: {7: ['occ'], 8: ['break']}, 4: {5: ['occ']},
+                  5: {5: ['occ'], 6: ['occ', 'break']}, 6: {5: ['occ']}}
+
+
+# ---------------------------------------------------------------------------------------
 # running against the interpreter
 
 class Rig(object):
@@ -341,9 +407,42 @@ class Rig(object):
         self.prog = prog
         self.trap = dict((t['name'], t) for t in prog['traps'])
         self.lines = to_basic(prog)
-        out = self.box.enter(self.lines)
+        self.all_lines = self.lines + prelude_lines(prog)
+        out = self.box.enter(self.all_lines)
         if out.strip():
             raise RuntimeError('program not accepted: %r' % out)
+
+    def prelude(self, k, between):
+        """Run prelude k (1..6) in this session, then prepare the next RUN: 'run' nothing, 'clear' CLEAR, 'new' NEW + re-enter."""
+        h, box = self.h, self.box
+        st = box.stepper
+        first = self.prog['traps'][0]['name']
+        st.schedule = {}
+        ticks = {}
+        for b, what in PRELUDE_EVENTS[k].items():
+            for w in what:
+                if w == 'break':
+                    st.schedule.setdefault(b, []).append(h.key_event(u'', h.scancode.BREAK, [h.scancode.CTRL]))
+                else:
+                    sg = self.signal(first)
+                    if sg is None:
+                        ticks[b] = self.trap[first]['arg']
+                    else:
+                        # the occurrence goes in front of a Break scheduled at the same boundary
+                        st.schedule.setdefault(b, []).insert(0, sg)
+        clock = box.clock
+        st.on_boundary_cb = (lambda n, q: clock.advance(ticks[n]) if n in ticks else None) if ticks else None
+        out = box.ex(b'RUN %d' % (PRELUDE_BASE + 1000 * k))
+        st.on_boundary_cb = None
+        st.schedule = {}
+        if between == 'clear':
+            box.ex(b'CLEAR')
+        elif between == 'new':
+            box.ex(b'NEW')
+            o2 = box.enter(self.all_lines)
+            if o2.strip():
+                raise RuntimeError('program not accepted: %r' % o2)
+        return out
 
     def signal(self, name):
         h = self.h
@@ -443,13 +542,20 @@ STAT_COUNTERS = [
 ]
 
 
-def check_one(rig, res, prog, sched, origin):
+def check_one(rig, res, prog, sched, origin, prelude=0, between='run'):
     """One schedule. Returns True if the interpreter's trace is accepted."""
     h = rig.h
     case = {'shape': prog['id'], 'program': [l.decode('latin-1') for l in rig.lines],
-            'schedule': sorted([b, n] for b, n in sched.items()), 'origin': origin}
+            'schedule': sorted([b, n] for b, n in sched.items()), 'origin': origin,
+            'preceded_by': PRELUDES[prelude], 'then': between}
     results = rt.all_traces(prog, sched)
     try:
+        if prelude:
+            pout = rig.prelude(prelude, between)
+            case['prelude_output'] = pout
+            res.count('runs_preceded_by_' + PRELUDES[prelude].replace('-', '_'))
+            if between != 'run':
+                res.count('runs_after_' + between)
         toks, raw = rig.run(sched)
     except h.Internal as e:
         res.violation(e.key, str(e), case)
@@ -477,6 +583,14 @@ def check_one(rig, res, prog, sched, origin):
         return True
     suffix, text = rt.diagnose(prog, results, toks)
     kinds = '+'.join(sorted(set(t['kind'] for t in prog['traps'])))
+    if prelude:
+        # is it the history? the same schedule right after loading the program into a fresh session
+        rig.load(prog)
+        toks2, _ = rig.run(sched)
+        if any(r['trace'] == toks2 for r in results):
+            suffix = 'state-survives-run:after-' + PRELUDES[prelude] + ':' + suffix
+            text = ('in a fresh session the trace is accepted, but not when a run that ended by %s came before (then: %s): %s'
+                    % (PRELUDES[prelude], between, text))
     res.violation('trap:' + suffix,
                   '%s. shape %s (%s), schedule %r: interpreter printed %s; accepted: %s' % (
                       text, prog['id'], kinds, case['schedule'], ' '.join(toks),
@@ -614,8 +728,12 @@ def run_shard(spec, res):
                 rig.load(prog)
                 cur = si
                 res.sample({'shape': prog['id'], 'program': [l.decode('latin-1') for l in rig.lines], 'schedules': [a, b]})
-            for combo in schedules(prog, kmax, a, b):
-                check_one(rig, res, prog, to_sched(combo), 'exhaustive')
+            for j, combo in enumerate(schedules(prog, kmax, a, b)):
+                # the run under test follows, in the same session, a run that ended in one of the PRELUDES states
+                # (quick: 6 of every 7 runs; thorough: 6 of every 21, to stay inside the CPU budget)
+                pk = (a + j) % (len(PRELUDES) * (1 if tier == 'quick' else 3))
+                check_one(rig, res, prog, to_sched(combo), 'exhaustive', prelude=pk if pk < len(PRELUDES) else 0,
+                          between='clear' if (a + j) % 5 == 4 else 'run')
             res.count('exhaustive_schedules', b - a)
         res.count('exhaustive_chunks', len(mine))
         # seeded random programs and schedules of the same family
@@ -626,7 +744,8 @@ def run_shard(spec, res):
             rig.load(prog)
             nb = rt.simulate(prog, {}, rt.Chooser())['boundaries']
             for _ in range(20):
-                check_one(rig, res, prog, gen_schedule(rng, prog, nb), 'random')
+                check_one(rig, res, prog, gen_schedule(rng, prog, nb), 'random', prelude=rng.randrange(len(PRELUDES)),
+                          between=rng.choice(['run', 'run', 'clear', 'new']))
                 res.count('random_schedules')
             res.count('random_programs')
     finally:
